@@ -31,6 +31,7 @@ import typing_extensions
 from mashumaro.config import ADD_DIALECT_SUPPORT
 from mashumaro.core.const import PY_311_MIN
 from mashumaro.core.helpers import parse_timezone
+from mashumaro.core.meta import _verif
 from mashumaro.core.meta.code.lines import CodeLines
 from mashumaro.core.meta.helpers import (
     get_args,
@@ -1146,6 +1147,13 @@ def unpack_named_tuple(spec: ValueSpec) -> Expression:
         print(f"{type_name(spec.builder.cls)}:")
         print(lines.as_text())
     exec(lines.as_text(), spec.builder.globals, spec.builder.__dict__)
+    if _verif.ENABLED:
+        _verif.emit(
+            "compile",
+            cls=spec.builder.cls,
+            code=lines.as_text(),
+            globals=spec.builder.globals,
+        )
     method_args = ", ".join(
         filter(None, (spec.expression, spec.builder.get_unpack_method_flags()))
     )
@@ -1211,6 +1219,13 @@ def unpack_typed_dict(spec: ValueSpec) -> Expression:
         print(f"{type_name(spec.builder.cls)}:")
         print(lines.as_text())
     exec(lines.as_text(), spec.builder.globals, spec.builder.__dict__)
+    if _verif.ENABLED:
+        _verif.emit(
+            "compile",
+            cls=spec.builder.cls,
+            code=lines.as_text(),
+            globals=spec.builder.globals,
+        )
     method_args = ", ".join(
         filter(None, (spec.expression, spec.builder.get_unpack_method_flags()))
     )
